@@ -72,10 +72,14 @@ def end_leg(seg, at_end):
 
 
 def kink_tol(a, b):
-    """1e-6 rad plus what the rounding of the control points themselves (1 ulp each) can turn the two tangents by"""
+    """2e-5 rad plus what the rounding of the control points themselves (1 ulp each) can turn the two tangents by"""
     mag = max(abs(complex(p)) for s in (a, b) for p in I.bps_of(s))
     leg = min(end_leg(a, True), end_leg(b, False))
-    return 1e-6 + (16 * gen.EPS * mag / leg if leg > 0 else 0.0)
+    # 2e-5 rad: smoothed_path leaves a joint alone when its unit tangents are np.isclose (1e-8 + 1e-5 relative), and
+    # the library's own kinks() calls a joint a kink only above 1.4e-4 rad; "matching unit tangents" is read at the
+    # finer of the two resolutions (a 1e-6 threshold flagged input corners of 4e-6 rad that were left untouched: 3 in
+    # 100 000 thorough cases)
+    return 2e-5 + (16 * gen.EPS * mag / leg if leg > 0 else 0.0)
 
 
 def joint_angle(a, b):
@@ -420,7 +424,7 @@ def crash_key(ctx, case, e, site):
 REGISTER = True
 TECHNIQUE = 'runtime monitors on smoothed_path/smoothed_joint/kinks: continuity, control-point tangents at every joint (incl. the closing joint), end points / closedness, distance to a dense sampling of the input, preservation of already smooth joints'
 LEVEL_TEXT = ('Every smoothed_path call of the workload is judged from the control points of its output: exactly joined pieces, tangents at every joint '
-              '(including the closing joint of closed inputs) within 1e-6 rad, unchanged end points for open inputs, closed outputs for closed inputs, '
+              '(including the closing joint of closed inputs) within 2e-5 rad (the resolution at which the library itself calls two unit tangents equal), unchanged end points for open inputs, closed outputs for closed inputs, '
               'all sampled output points within maxjointsize of the input, already smooth joints kept, single segments returned unchanged; every '
               'smoothed_joint (also the nested ones of the curve-curve construction) must return a smoothly joined chain; kinks() is compared with a reference kink list.')
 LEVEL_NOTE = 'Tangents are reference tangents from control points; distance uses 1024 samples per input segment; paths with 180-degree reversals are outside the statement.'
